@@ -20,7 +20,15 @@ func specLineCol(s string, pos int) (int, int) {
 var srcLineRe = regexp.MustCompile(`^ *(\d+)\|  (.*)$`)
 
 // c20Position checks ResolvePos/Position on (s, pos, end) with 0 <= pos <= end <= len.
+// c20Position: the raw call under the deadline of safely (a lexer or splitter that loops is reported, not waited for).
 func c20Position(s string, pos, end int) (detail string) {
+	if p := safely(func() { detail = c20PositionRaw(s, pos, end) }); p != nil {
+		detail = fmt.Sprint("File.Position: ", p)
+	}
+	return
+}
+
+func c20PositionRaw(s string, pos, end int) (detail string) {
 	defer func() {
 		if r := recover(); r != nil {
 			detail = fmt.Sprintf("File.Position(%d,%d) panicked: %v", pos, end, r)
@@ -95,7 +103,15 @@ func c20Errors(s string) (n int, detail string) {
 }
 
 // collectErrors gathers the *Error values reported for s by the lexer, the splitter and ParseStatements.
+// collectErrors: the raw call under the deadline of safely (a lexer or splitter that loops is reported, not waited for).
 func collectErrors(s string) (errs []*memefish.Error, crashed string) {
+	if p := safely(func() { errs, crashed = collectErrorsRaw(s) }); p != nil {
+		crashed = fmt.Sprint(p)
+	}
+	return
+}
+
+func collectErrorsRaw(s string) (errs []*memefish.Error, crashed string) {
 	defer func() {
 		if r := recover(); r != nil {
 			crashed = fmt.Sprint(r)
